@@ -48,6 +48,23 @@ Definition step_op (op : list tok) : list tok :=
       match args with
       | TB m :: kv => [TS (if h1_guard m (pairs kv) then "forward" else "refuse")]
       | _ => [TS "badop"] end
+    else if name =? "ledger" then
+      (* Content-Length / DATA ledger: ledger <declared? 0|1> <declared> (<0|1 end_stream> <len> | 2)* *)
+      match args with
+      | TN hasd :: TN d :: evs =>
+        let fix evl (fuel : nat) (l : list tok) : list ev :=
+            match fuel with O => [] | S f =>
+            match l with
+            | TN 2 :: t => Trailers :: evl f t
+            | TN k :: TN len :: t => Data (Z.to_N len) (Z.eqb k 1) :: evl f t
+            | _ => []
+            end end in
+        match data_agree (if Z.eqb hasd 1 then Some (Z.to_N d) else None) 0%N (evl (List.length evs) evs) with
+        | Open n => [TS "open"; tn_N n]
+        | Complete n => [TS "complete"; tn_N n]
+        | Reset => [TS "reset"]
+        end
+      | _ => [TS "badop"] end
     else if name =? "cuts" then []
     else [TS "badop"]
   | _ => [TS "badop"]
